@@ -456,8 +456,16 @@ def hostile(rng, backend):
             tags.append("joint-unique")
     # -- call options
     if T(0.2):
-        call[rng.choice(["head", "tail", "sample"])] = rng.randint(1, 3)
-        tags.append("subsample")
+        opt = rng.choice(["head", "tail", "sample"])
+        n = _rows(table)
+        if opt == "sample" and not neutral:
+            # pandas' sample(n > len) is an argument error of the caller
+            if n >= 1:
+                call["sample"] = rng.randint(1, min(3, n))
+                tags.append("subsample")
+        else:
+            call[opt] = rng.randint(1, 3)
+            tags.append("subsample")
     if not neutral and T(0.1):
         call["inplace"] = True
         tags.append("inplace")
